@@ -1370,3 +1370,52 @@ Proof.
     destruct (negb (Nat.eqb mx 0) && Nat.ltb mx (length M)); reflexivity.
   - subst e. reflexivity.
 Qed.
+
+(* ------------------------------------------------------------------------------------------- *)
+(* 9. the same clauses for separators of any positive length *)
+
+Theorem path_suffix_multi w sep path q n :
+  ends_ok sep (trim_right sep path) = true ->
+  locate w q = Some n -> sat_path w sep path q = path_ends sep (rstrip path sep) n.
+Proof. intros H. apply sat_path_located_gen. apply rstrip_clean. exact H. Qed.
+
+Theorem full_path_iff_multi w sep p s path n :
+  sep <> [] -> names_sfree w sep = true -> sibling_names_unique w = true -> clean sep path = true ->
+  locate w p = Some s ->
+  (find_full_path sep s path = Ret (Some n)
+   <-> exists q, locate w q = Some n /\ join sep (names_to w q) = trim sep path).
+Proof.
+  intros Hne Hn Huniq Hcl Hs.
+  destruct (find_full_path_char_gen w sep p s path Hne (strip_clean _ _ Hcl)
+              (names_split_multi _ _ Hne Hn) Huniq Hs) as [HA HB]. split.
+  - intros H. destruct (HB n H) as [q [Hin Hq]]. exists q. split; [exact Hq|].
+    unfold full_path_nodes in Hin. apply filter_In in Hin as [_ E]. apply str_eqb_eq in E. exact E.
+  - intros [q [Hq E]].
+    assert (Hin : In q (full_path_nodes w sep path)).
+    { unfold full_path_nodes. apply filter_In. split.
+      - rewrite all_nodes_positions. eapply descend_in_positions. exact Hq.
+      - rewrite E. apply str_eqb_refl. }
+    destruct (HA q Hin) as [n' [Hn' H]]. rewrite Hq in Hn'. injection Hn' as <-. exact H.
+Qed.
+
+Theorem relative_spec_multi w sep p s path mn mx :
+  sep <> [] -> memN 42%N sep = false -> clean sep path = true ->
+  locate w p = Some s -> startswith path sep = false ->
+  plain_components (components sep path) = true ->
+  match denote w (has_wildcard (components sep path)) (components sep path) p with
+  | None => find_relative_paths sep s path mn mx = Raise SearchError
+  | Some L => exists M, map (locate w) L = map Some M
+                        /\ find_relative_paths sep s path mn mx
+                           = if count_violated (length L) mn mx then Raise SearchError else Ret (map Some M)
+  end.
+Proof.
+  intros Hne Hc Hcl Hs Hrel Hp. unfold find_relative_paths. rewrite Hrel. unfold components in *.
+  rewrite (strip_clean _ _ Hcl), (wild_eq_gen sep _ Hne Hc Hp), denote_unfold.
+  pose proof (resolve_denote w (has_wildcard (split (trim sep path) sep)) (split (trim sep path) sep) p s Hs) as R.
+  destruct (resolve _ _ s) as [M|e], (denote_from _ _ _ _) as [L|]; cbn [rel] in R; try contradiction.
+  - exists M. split; [exact R|]. rewrite (map_Some_length _ _ _ R).
+    unfold check_result_count, count_violated.
+    destruct (negb (Nat.eqb mn 0) && Nat.ltb (length M) mn); [reflexivity|].
+    destruct (negb (Nat.eqb mx 0) && Nat.ltb mx (length M)); reflexivity.
+  - subst e. reflexivity.
+Qed.
